@@ -75,9 +75,10 @@ CLAIMED = {
                 "recomputes cells independently and checks placement, round trips and 'unsew succeeds on embedded meshes'.",
         "note": "Trusted: Lean kernel + 3 standard axioms; hand-written model. Cell level (C05Cells, C05Cells2): 1-sew/1-unsew on every WF 4 "
                 "map; 2- and 3-sew/unsew on closed faces; C05Succ: 1-/2-/3-unsew SUCCEED on an embedded mesh (built-in vertices; the result "
-                "is embedded again), open-face arms of 2-(un)sew, cell-level proviso => id-level proviso for 3-sew. NOT proved: success with "
-                "user storages whose split can fail, open faces for 3-(un)sew, behaviour outside the proviso (a cell in two merges of one "
-                "call). Defects found and repaired: three_unsew max/min (af9cf00), D4 (f79acf8), D13 (e8bc83e).",
+                "is embedded again), open-face arms of 2-(un)sew, cell-level proviso => id-level proviso for 3-sew. C05Cells3(+Data): 3-sew / 3-unsew at cell level on OPEN faces; "
+                "C05SuccLaw: the unsews succeed for ANY attribute law that splits the values held at the splitting cells' identifiers "
+                "(first failing law's error otherwise, state unchanged by C06). NOT proved: the edge analogue of the Disj data clause, "
+                "behaviour outside the proviso (a cell in two merges of one call). Defects found and repaired: three_unsew max/min (af9cf00), D4 (f79acf8), D13 (e8bc83e).",
         "design_ref": "DESIGN.md §7 C05, §13",
     },
     "C03": {
@@ -88,7 +89,10 @@ CLAIMED = {
                 "yield exactly the ids of in-use darts; linear policies agree on closed cells; transactional = plain. Tie: exhaustive "
                 "WF 2-maps n<=4 x all darts x 14 policies x all id/iterator calls on the real CMap2 vs the model, plus an independent "
                 "Python closure oracle.",
-        "note": "Trusted: Lean kernel + 3 standard axioms; hand-written model. 3-D (Props/C03b.lean): C03_orbit3_spec for every policy and "
+        "note": "Trusted: Lean kernel + 3 standard axioms; hand-written model, EXCEPT the image lists of the orbit policies and of the 3-D "
+                "identifier walks, which are re-translated from dim2/orbits.rs, dim3/orbits.rs, dim3/basic_ops.rs on every run "
+                "(Gen/OrbitArms.lean; Props/C03Gen.lean proves they are the model's g2 / g3 / g3v, that every policy has an arm and that "
+                "orbit and orbit_transac examine the same images). 3-D (Props/C03b.lean): C03_orbit3_spec for every policy and "
                 "Custom slice; vertex/edge/volume ids = cell minima and iterators on EVERY WF 4 map (after repair of D13); face ids under "
                 "FaceScope = Mirror + 'a dart is 3-free iff its successor is' — weaker than the property's 'glued faces closed and mirrored' "
                 "(closedness not needed; both conditions necessary, counterexamples on the real code in the file); linear policies on closed "
@@ -150,8 +154,9 @@ CLAIMED = {
                 "builder loops. C12b: 3-D lattice vertices, volumes, counts, build() total; C12c: the third descriptor form in binary64 — "
                 "count = ceil(rnd 53 (L/l)) is ceil(L/l) or one less, exact on exact multiples (C12_ceil_count_f64_multiple), one short on a "
                 "concrete pair of floats (reproduced on the real builder; outside the property: not an exact multiple). NOT proved: that "
-                "the hardware division is rnd 53 (validated by C19's flop stream), overflow/subnormal quotients, 3-D edge/face counts, "
-                "u32 wrap-around.",
+                "the hardware division is rnd 53 (validated by C19's flop stream), overflow/subnormal quotients, u32 wrap-around. C12d: 3-D vertex / edge / "
+                "face / volume counts and the Euler relation for ALL sizes through the real identifier walks (C12_hex3_counts_all, "
+                "C12_hex3_faces, C12_hex3_edges); the 3-D split grid is unimplemented!() in the code (mirrored panic proved).",
         "design_ref": "DESIGN.md §7 C12, §3.4",
     },
     "C19": {
@@ -167,7 +172,10 @@ CLAIMED = {
                 "unbounded exponent is odd, monotone, exact on representable numbers, relative error <= 2^-p — so every fl-theorem is "
                 "unconditional for rnd 53 / rnd 24; the real f64/f32 + - * / are compared EXACTLY with rnd (48000 hardware operations per "
                 "run incl. 7500 exact ties, plus the Lean rnd through the driver). NOT proved: that the hardware is rnd (validated by that "
-                "stream), overflow/underflow/subnormals (excluded), accuracy of hypot/sqrt/acos, the polygon angle sum. Defect D12 found and "
+                "stream), accuracy of hypot/sqrt/acos, the polygon angle sum. Props/C19c.lean: 'moderate magnitude' made explicit — "
+                "rndB p emin emax (round-to-nearest-even with a real format's exponent range, gradual underflow, overflow = none) equals rnd p "
+                "under explicit magnitude bounds on the inputs for every C19 operator (binary32 and binary64 instances), so the C19b "
+                "theorems apply to the bounded arithmetic; a single quotient only (a quotient lies on no grid). Defect D12 found and "
                 "repaired (90eb331).",
         "design_ref": "DESIGN.md §7 C19",
     },
@@ -184,7 +192,11 @@ CLAIMED = {
                 "Mirror + Sided (+ NoSelfGlue): Mirror is preserved by the API, C02; Sided/NoSelfGlue under the extra guard of C02b); a "
                 "self-glued face provably gets every dart entity twice; exact normals over Q: zero normal iff the corner is straight "
                 "(C20_D20a_zero_normal_iff = known finding D20a: NaN FaceNormals), plane normal of the scene = cross product of the map's "
-                "coordinates. NOT proved: f32 normalisation (oracle), sum of face normals at a VolumeNormals vertex.",
+                "coordinates. Props/C20c.lean: glam's Vec3::normalize operation by "
+                "operation in the rounding model (rnd 24; sqrt ASSUMED within relative error u, true of a correctly rounded sqrt): every "
+                "nonzero input is normalised to |norm - 1| <= 10 * 2^-24 < 1e-6, a corner's plane normal is nonzero iff the corner is "
+                "not straight (D20a is exactly the excluded case). PARTIAL: the finally stored (a*n1+b*n2).normalize() when the computed "
+                "sum vanishes; NOT proved: the f32 rounding of the cross products themselves, glam's SIMD paths.",
         "design_ref": "DESIGN.md §7 C20",
     },
     "C07": {
